@@ -1,6 +1,6 @@
 """C07 - results depend only on configuration and seed, not on call order or schedule.
 
-Four streams, all on the REAL solvers imported from /repo:
+Five streams, all on the REAL solvers imported from /repo:
  cfg   correspondence of Model/Config.lean (one function per Set*, footprint table) with abstract_solver.py:
        random sequences of Set* calls (dependent ones, repeated ones, raising ones included) on fresh and on
        already-run solvers of every kind; the observed configuration, the population, the position in the random
@@ -10,9 +10,12 @@ Four streams, all on the REAL solvers imported from /repo:
  perm  monitor: all / sampled permutations of the configuration calls (initial points included) of complete
        solver specs (harness/trace.py, spec['config_order']) on DE, DE2, Nelder-Mead, Powell -> bit-identical
        traces; permuted re-configuration in the middle of a run.
+ live  monitor: a LIVE solver (driven by Step, never terminated) re-configured between two Steps by permuted Set* calls
+       (strict ranges switched on / changed / off among them) -> bit-identical continued traces.
  map   monitor + correspondence: DifferentialEvolutionSolver2 under maps that evaluate in a different order /
-       parallelism and return results in input order (serial, reversed, shuffled, thread pool, forked processes)
-       -> identical trajectories; Model/Schedule.lean `step2With` replayed with the evaluation order the map really
+       parallelism and return results in input order (serial, reversed, shuffled, thread pool, deep-copying, forked
+       processes), with costs / penalties that modify their argument in place -> identical trajectories;
+       Model/Schedule.lean `step2Proc` replayed with the evaluation order and sharing discipline the map really
        used -> identical states and evaluation log, entry by entry.
  ens   monitor: Lattice / Buckshot ensembles with Nelder-Mead / Powell members, run to completion versus
        Solve(step=True) versus a Step loop, under the same maps -> identical results.
@@ -31,6 +34,10 @@ THEOREMS = [
     "MysticVerif.C07.config_raises",
     "MysticVerif.C07.config_no_rng",
     "MysticVerif.C07.rng_consumer_amount",
+    "MysticVerif.C07.setter_defers_decoration",
+    "MysticVerif.C07.live_reconfig_decorates_once",
+    "MysticVerif.C07.live_reconfig_perm",
+    "MysticVerif.C07.eager_decoration_witness",
     "MysticVerif.C07.limits_new_vs_monitor_witness",
     "MysticVerif.C07.powell_finalize_witness",
     "MysticVerif.C07.two_rng_consumers_witness",
@@ -39,6 +46,9 @@ THEOREMS = [
     "MysticVerif.C07.de2_any_order_eq_de1",
     "MysticVerif.C07.de2_run_map_independent",
     "MysticVerif.C07.de2_counter_agrees",
+    "MysticVerif.C07.de2_evaluator_effect_free",
+    "MysticVerif.C07.de2_run_effect_free",
+    "MysticVerif.C07.de2_uncopied_witness",
     "MysticVerif.C07.trajectory_of_cfg",
     "MysticVerif.C07.trajectory_config_perm",
     "MysticVerif.C07.ensemble_any_schedule",
@@ -98,6 +108,18 @@ def shuffled_map(seed, log=None):
             out[i] = f(*items[i])
         return out
     return shuf
+
+
+def deepcopy_map(log=None):
+    """the semantics of every process-based / distributed map, in-process: the workers see COPIES of the items"""
+    import copy
+
+    def dcp(f, *seqs, **kw):
+        items = list(zip(*seqs))
+        if log is not None:
+            log.calls.append(list(range(len(items))))
+        return [f(*copy.deepcopy(a)) for a in items]
+    return dcp
 
 
 def thread_map(nthreads=3):
@@ -238,7 +260,25 @@ def bnd_probe(s):
     return "rand"
 
 
-def observe(s, reg, rng_states, strings):
+class DecCounter:
+    """how often `_decorate_objective` has run: every decoration stores a NEW wrapped objective in `_cost[0]`
+    (SetObjective stores None).  Nothing in /repo is instrumented; the previous objects are kept alive so that
+    identities cannot be recycled."""
+
+    def __init__(self, s):
+        self.keep = [s._cost[0]]
+        self.n = 1 if s._cost[0] is not None else 0
+
+    def update(self, s):
+        c = s._cost[0]
+        if c is not None and c is not self.keep[-1]:
+            self.n += 1
+        if c is not self.keep[-1]:
+            self.keep.append(c)
+        return self.n
+
+
+def observe(s, reg, rng_states, strings, ndec=0):
     """the configuration of a real solver, printed exactly like Drv/C07.lean `showCfg`"""
     from mystic.monitors import Null
     from mystic.python_map import python_map
@@ -287,22 +327,28 @@ def observe(s, reg, rng_states, strings):
         pos = 99999          # the global random source is in a state no sequence of uniform() draws leads to
     out = ("(kind %s) (red %s) (pen %s) (con %s) (term %s) (col %s) (smon %s) (emon %s) (eh %s) (sh %s) (us %s) (tight %s) "
            "(clip %s) (smin %s) (smax %s) (bnd %s) (mi %s) (mf %s) (cost %s) (dec %s) (live %s) (si %s) (st %s) (map %d) "
-           "(mcfg %d) (sig %s) (pop %s) (rng %d)") % (
+           "(mcfg %d) (sig %s) (pop %s) (rng %d) (ndec %d)") % (
         kind, red, on(reg.get(s._penalty)), on(reg.get(s._constraints)), on(reg.get(s._termination)), bl(s._collapse),
         mon(s._stepmon), mon(s._evalmon), on(None if s._energy_history is None else len(s._energy_history)),
         on(None if s._solution_history is None else len(s._solution_history)), bl(s._useStrictRange),
         ob(s._useTightRange), ob(s._useClipRange), fl(vec(s._strictMin)), fl(vec(s._strictMax)), bnd_probe(s),
         lim(s._maxiter), lim(s._maxfun), on(reg.get(s._cost[1]) if s._cost[1] is not None else None),
         bl(s._cost[0] is not None), bl(s._live), on(s._saveiter), on(sti), mid, int(mcfg.get("tag", 0)),
-        bl(s._handle_sigint), fll([vec(p) for p in s.population]), pos)
+        bl(s._handle_sigint), fll([vec(p) for p in s.population]), pos, ndec)
     return out
 
 
 def static_sexp(s):
     be = s.bestEnergy
-    return "(ndim %d) (dmin %s) (dmax %s) (best %d) (fcalls %d)" % (
-        s.nDim, fl(vec(s._defaultMin)), fl(vec(s._defaultMax)), bits(np.ravel(be)[0] if be is not None else float("inf")), int(s._fcalls[0]))
+    try:
+        bidx = list(s.popEnergy).index(s.bestEnergy)     # what `_decorate_objective` computes under strict ranges
+    except Exception:
+        bidx = 0
+    return "(ndim %d) (dmin %s) (dmax %s) (best %d) (fcalls %d) (bidx %d)" % (
+        s.nDim, fl(vec(s._defaultMin)), fl(vec(s._defaultMax)), bits(np.ravel(be)[0] if be is not None else float("inf")), int(s._fcalls[0]), bidx)
 
+
+BOOTABLE = ("DE", "DE2", "Powell")      # NelderMead rebuilds its simplex when it decorates; ensembles never decorate
 
 OPKINDS = ["red", "pen", "con", "smon", "emon", "ranges", "limits", "term", "obj", "save", "map", "sig", "init", "rand"]
 
@@ -314,6 +360,9 @@ def gen_cfg_op(rng, desc, j):
     if desc["solver"] not in ("DE2", "Lattice", "Buckshot"):
         kinds.remove("map")
     k = rng.choice(kinds + ["ranges", "limits", "smon", "init", "pen", "con"])   # the interesting ones more often
+    if desc["solver"] in BOOTABLE and rng.random() < (0.22 if desc["pre_steps"] else 0.08):
+        # the prelude of `Step(cost)`: the deferred decoration (mostly with the stored cost: the solver stays "the same run")
+        return ["boot", 1 if rng.random() < 0.8 else 2]
     if k == "red":
         return ["red", None if rng.random() < 0.2 else 100 + j, rng.random() < 0.4]
     if k in ("pen", "con"):
@@ -384,7 +433,8 @@ def run_cfg_ops(desc, ops, seed, ids=None):
     rng_states = []; u = []
     for _ in range(260):
         rng_states.append(ref.getstate()); u.append(ref.random())
-    init = static_sexp(s) + " " + observe(s, reg, rng_states, strings)
+    dc = DecCounter(s)
+    init = static_sexp(s) + " " + observe(s, reg, rng_states, strings, dc.n)
     objs = {}
     sexps = []; raised = []
 
@@ -485,6 +535,10 @@ def run_cfg_ops(desc, ops, seed, ids=None):
         elif k == "rand":
             call = lambda: s.SetRandomInitialPoints(None if op[1] is None else list(op[1]), None if op[2] is None else list(op[2]))
             sx = "(rand %s %s)" % (vsx(op[1]), vsx(op[2]))
+        elif k == "boot":
+            c = quad1 if op[1] == 1 else quad2
+            call = lambda: s._bootstrap_objective(c)        # exactly what Step(cost) does first
+            sx = "(boot %d)" % op[1]
         else:
             raise ValueError(op)
         try:
@@ -492,9 +546,16 @@ def run_cfg_ops(desc, ops, seed, ids=None):
             raised.append(False)
         except (ValueError, TypeError, NotImplementedError):
             raised.append(True)
+        dc.update(s)
         sexps.append(sx)
-    final = observe(s, reg, rng_states, strings)
+    final = observe(s, reg, rng_states, strings, dc.n)
     return init, sexps, final, raised, u
+
+
+def no_ghost(obs):
+    """the observed configuration without the decoration counter: the monitors compare what the property talks about
+    (configuration, population, random source); HOW OFTEN the objective was wrapped is the model's business"""
+    return obs[:obs.rindex(" (ndec ")] if " (ndec " in obs else obs
 
 
 def first_diff(a, b):
@@ -512,6 +573,15 @@ def cfg_case(rng, tier):
             "pre_steps": rng.choice([0, 0, 1, 2, 3]), "seed0": rng.randrange(2 ** 31)}
     n = rng.randint(2, 7)
     ops = [gen_cfg_op(rng, desc, j) for j in range(n)]
+    if solver in ("DE", "DE2") and desc["pre_steps"] >= 2 and rng.random() < 0.5:
+        # a live stochastic solver re-configured between two iterations: valid strict ranges somewhere, the deferred
+        # decoration (which now draws random numbers) somewhere after them
+        dim = desc["dim"]
+        lo = [common.dyadic(rng, -2, 1, 4) for _ in range(dim)]
+        hi = [a + abs(common.dyadic(rng, 0, 3, 4)) + 0.25 for a in lo]
+        i = rng.randint(0, len(ops) - 1)
+        ops[i] = ["ranges", False, lo, hi, rng.choice([None, True]), rng.choice([None, None, True])]
+        ops.insert(rng.randint(i + 1, len(ops)), ["boot", 1])
     seed = rng.randrange(2 ** 31)
     return desc, ops, seed
 
@@ -558,20 +628,27 @@ def _cfg_stream(seed, shard, ncases, tier, hist, findings, samples, ks=None):
             hist.get("cfg:%s:%s" % (desc["solver"], "run" if desc["pre_steps"] and kind != "ensemble" else "fresh"), 0) + 1
         for op, rz in zip(ops, raised):
             hist["cfg-op:%s%s" % (op[0], ":raised" if rz else "")] = hist.get("cfg-op:%s%s" % (op[0], ":raised" if rz else ""), 0) + 1
+        for op in ops:
+            if op[0] == "boot":
+                hist["cfg-boot:%s:%s" % (desc["solver"], "run" if desc["pre_steps"] else "fresh")] = \
+                    hist.get("cfg-boot:%s:%s" % (desc["solver"], "run" if desc["pre_steps"] else "fresh"), 0) + 1
+        if int(r[1].get("bootdecs", 0)):
+            hist["cfg-boot:decorated"] = hist.get("cfg-boot:decorated", 0) + int(r[1]["bootdecs"])
+        if int(r[1].get("bootdraws", 0)):
+            hist["cfg-boot:random-draws"] = hist.get("cfg-boot:random-draws", 0) + int(r[1]["bootdraws"])
+        mraised = [t == "true" for t in r[1]["raised"]]
         if mcfg != final:
             fld = first_diff(mcfg, final)
             findings.append(Finding("correspondence", "cfg/%s/model-diverges/%s" % (kind, fld),
                                     "after %s: attribute %s differs\n model %s\n impl  %s" % (" ".join(sexps), fld, mcfg[:700], final[:700]), case))
-            continue
-        mraised = [t == "true" for t in r[1]["raised"]]
-        if mraised != raised:
+        elif mraised != raised:
             findings.append(Finding("correspondence", "cfg/%s/model-diverges/raised" % kind,
                                     "raised flags model=%r impl=%r for %s" % (mraised, raised, " ".join(sexps)), case))
-            continue
-        dep = set((int(p[0]), int(p[1])) for p in r[1]["dep"])
+        # the monitor below runs on the real solver alone: a broken tie to the model must not mask a failing input
+        adj = [int(t) for t in r[1]["adj"]]
         pw = (r[1]["pw"] == "true")
-        # ---- monitor: swap adjacent calls the table declares independent, on the real solver
-        swaps = [i for i in range(len(ops) - 1) if (i, i + 1) not in dep]
+        # ---- monitor: swap adjacent calls the table declares independent (in the state they are made in), on the real solver
+        swaps = list(adj)
         rng.shuffle(swaps)
         did = False
         for i in swaps[:2]:
@@ -585,7 +662,9 @@ def _cfg_stream(seed, shard, ncases, tier, hist, findings, samples, ks=None):
                 findings.append(Finding("monitor", "cfg/%s/swap/unexpected-exception" % kind, "%r" % (exc,), case)); continue
             did = True
             hist["cfg-swap:%s-%s" % tuple(sorted((ops[i][0], ops[i + 1][0])))] = hist.get("cfg-swap:%s-%s" % tuple(sorted((ops[i][0], ops[i + 1][0]))), 0) + 1
-            if final2 != final:
+            if "(live true)" in line:
+                hist["cfg-swap:on-live-solver"] = hist.get("cfg-swap:on-live-solver", 0) + 1
+            if no_ghost(final2) != no_ghost(final):
                 fld = first_diff(final, final2)
                 c2 = dict(case); c2["swapped"] = [i, i + 1]; c2["impl_swapped"] = final2
                 findings.append(Finding("monitor", "cfg/%s/swap/%s-%s/%s" % (kind, ops[i][0], ops[i + 1][0], fld),
@@ -602,7 +681,7 @@ def _cfg_stream(seed, shard, ncases, tier, hist, findings, samples, ks=None):
                 _, _, final3, raised3, _ = run_cfg_ops_renumbered(desc, ops, perm, sd)
                 hist["cfg-perm:pairwise-independent"] = hist.get("cfg-perm:pairwise-independent", 0) + 1
                 did = True
-                if final3 != final:
+                if no_ghost(final3) != no_ghost(final):
                     fld = first_diff(final, final3)
                     c2 = dict(case); c2["perm"] = perm; c2["impl_permuted"] = final3
                     findings.append(Finding("monitor", "cfg/%s/perm/%s" % (kind, fld),
@@ -795,16 +874,250 @@ def perm_stream(seed, shard, ncases, tier, hist, findings, samples, ks=None):
 
 
 # =====================================================================================================
+# stream `live`: permuted Set* calls on a LIVE solver (between two Steps, no stop in between) -> identical
+# continued trajectories.  What is at stake: `_update_objective` only records + Finalizes, the objective is
+# re-decorated ONCE by the next Step; under strict ranges a decoration clips the population and draws random numbers,
+# so a Set* that decorated at once would make the trajectory depend on how many / which calls follow SetStrictRanges.
+# =====================================================================================================
+def apply_live_item(s, prob, item, val):
+    from mystic.monitors import Monitor
+    if item == "ranges":
+        if val is None:
+            s.SetStrictRanges(False, False)
+        else:
+            lo, hi, tight, clip = val
+            kw = {}
+            if tight is not None:
+                kw["tight"] = tight
+            if clip is not None:
+                kw["clip"] = clip
+            s.SetStrictRanges(list(lo), list(hi), **kw)
+    elif item == "penalty":
+        s.SetPenalty(prob.penalty_fn(val))
+    elif item == "constraints":
+        s.SetConstraints(prob.constraints_fn(val, prob.inplace))
+    elif item == "limits":
+        s.SetEvaluationLimits(val[0], val[1])
+    elif item == "termination":
+        s.SetTermination(trace.make_termination(val))
+    elif item == "evalmon":
+        s.SetEvaluationMonitor(Monitor())
+    elif item == "stepmon":
+        s.SetGenerationMonitor(Monitor())
+    elif item == "reducer":
+        s.SetReducer((lambda a, b: a + b) if val == "sum" else (lambda a, b: a if a >= b else b))
+    else:
+        raise ValueError(item)
+
+
+def run_live(spec, seed, plan, orders):
+    """plan: list of ('steps', n) | ('block', {item: value}); orders[j]: order of the items of the j-th block.
+    Returns (recorder, [was the solver live when block j started])"""
+    rec = trace.Recorder()
+    prob = trace.Problem(spec, rec)
+    _random.seed(seed); np.random.seed(seed % (2 ** 31))
+    s = trace.build_solver(spec, prob)
+    if spec["solver"] in ("DE", "DE2"):
+        s.strategy = spec.get("strategy", "Best1Bin")
+        s.scale = spec.get("F", 0.8); s.probability = spec.get("CR", 0.9)
+        lo, hi = spec["init_box"]
+        s.SetRandomInitialPoints(list(lo), list(hi))
+    else:
+        s.SetInitialPoints(list(spec["x0"]))
+    trace.apply_config(s, spec, prob)
+    rec.init_population = [vec(p) for p in s.population]
+    kw = {"callback": prob.callback_fn}
+    live = []; dcs = []; j = 0
+    dc = None
+    with trace.patched(rec):
+        for what, arg in plan:
+            if what == "steps":
+                for _ in range(arg):
+                    ret = s.Step(prob.cost_fn, **kw)
+                    if dc is None:
+                        dc = DecCounter(s)
+                    dc.update(s)
+                    rec.snaps.append(trace.snapshot(s, rec, ("step",), ret))
+            else:
+                live.append(bool(s._live))
+                n0 = dc.n if dc is not None else 0
+                for item in orders[j]:
+                    apply_live_item(s, prob, item, arg[item])
+                    if dc is not None:
+                        dc.update(s)
+                dcs.append((dc.n if dc is not None else 0) - n0)
+                j += 1
+    rec.block_decorations = dcs
+    return rec, live
+
+
+def live_case(rng, tier):
+    solver = rng.choice(["DE", "DE2", "DE", "DE2", "DE", "DE2", "NM", "Powell"])
+    spec = solvergen.gen_spec(rng, solver=solver, maxdim=3, nsteps=(2, 4), flavour="steps")
+    dim = spec["dim"]
+    # the run must still be live when it is re-configured: nothing may stop it before
+    spec["termination"] = ("never",)
+    spec["limits"] = (1000, 100000)
+    if rng.random() < 0.55:            # strict ranges off at first: switching them on in mid-run changes the NUMBER of draws
+        spec.pop("ranges", None); spec.pop("box_kind", None)
+    center = spec.get("x0") or [0.5 * (a + b) for a, b in zip(*spec["init_box"])]
+    plan = [("steps", rng.randint(2, 5))]
+    for b in range(2 if rng.random() < 0.3 else 1):
+        vals = {}
+        box = (spec["ranges"][0], spec["ranges"][1]) if spec.get("ranges") else None
+        if rng.random() < 0.8:
+            if box is not None and rng.random() < 0.15:
+                vals["ranges"] = None; box = None
+            else:
+                lo, hi, _ = solvergen.gen_box(rng, dim, center, rng.choice(["finite", "finite", "onesided", "integer"]))
+                tight, clip = rng.choice([(None, None), (None, None), (True, None), (None, True)])
+                vals["ranges"] = (lo, hi, tight, clip); box = (lo, hi)
+        pool = ["penalty", "constraints", "limits", "termination", "evalmon", "reducer"] + ([] if solver == "Powell" else ["stepmon"])
+        rng.shuffle(pool)
+        for item in pool[:rng.randint(2, 4)]:
+            if item == "penalty":
+                vals[item] = solvergen.gen_penalty(rng, dim)
+            elif item == "constraints":
+                vals[item] = solvergen.gen_constraints(rng, dim, box)
+            elif item == "limits":
+                vals[item] = (rng.choice([1000, 500, 2000]), rng.choice([100000, 50000]))
+            elif item == "termination":
+                vals[item] = rng.choice([("never",), ("VTR", 1e-9, -1000.0)])
+            elif item == "reducer":
+                vals[item] = spec.get("reducer") or rng.choice(["sum", "max"])
+            else:
+                vals[item] = True
+        plan.append(("block", vals))
+        plan.append(("steps", rng.randint(2, 5 if tier == "quick" else 10)))
+    return spec, plan
+
+
+def live_stream(seed, shard, ncases, tier, hist, findings, samples, ks=None):
+    evals = 0; nontrivial = 0
+    for k in (range(ncases) if ks is None else ks):
+        rng = case_rng(PID + "/live", seed, shard, k)
+        spec, plan = live_case(rng, tier)
+        sd = rng.randrange(2 ** 31)
+        blocks = [arg for what, arg in plan if what == "block"]
+        base_orders = [list(b.keys()) for b in blocks]
+        meta = {"stream": "live", "seed": seed, "shard": shard, "k": k, "tier": tier, "spec": spec, "plan": plan, "rng_seed": sd}
+        try:
+            rec0, live = run_live(spec, sd, plan, base_orders)
+            base = canon_trace(rec0)
+        except Exception as exc:
+            hist["live:raised:%s" % type(exc).__name__] = hist.get("live:raised:%s" % type(exc).__name__, 0) + 1
+            continue
+        evals += 1
+        tag = "live:%s:%s%s" % (spec["solver"], "live" if all(live) else "stopped", ":ranges" if any("ranges" in b for b in blocks) else "")
+        hist[tag] = hist.get(tag, 0) + 1
+        if all(live) and len(json.loads(base[-1])["cost"]) >= 3:
+            nontrivial += 1
+        for item in set(i for b in blocks for i in b):
+            hist["live-item:%s" % item] = hist.get("live-item:%s" % item, 0) + 1
+        if any(rec0.block_decorations):
+            # a Set* call built a new decorated objective at once: not a violation by itself (the trajectories decide),
+            # reported by the correspondence of the cfg stream (attribute ndec); counted here
+            hist["live:set-call-decorated"] = hist.get("live:set-call-decorated", 0) + 1
+        # orders: all permutations of a block when there are at most 24, else 24 sampled; the other blocks in base order
+        trials = []
+        for j, b in enumerate(blocks):
+            names = list(b.keys())
+            if math.factorial(len(names)) <= 24:
+                perms = [list(p) for p in itertools.permutations(names)][1:]
+            else:
+                perms = [list(reversed(names))] + [names[i:] + names[:i] for i in range(1, len(names))]
+                while len(perms) < (24 if tier == "thorough" else 10):
+                    p = list(names); rng.shuffle(p); perms.append(p)
+            for p in perms:
+                o = [list(x) for x in base_orders]; o[j] = p
+                trials.append(o)
+        for o in trials:
+            try:
+                t = canon_trace(run_live(spec, sd, plan, o)[0])
+            except Exception as exc:
+                t = ["raised %r" % (exc,)]
+            hist["live-runs"] = hist.get("live-runs", 0) + 1
+            if t != base:
+                where = next((i for i, (a, b) in enumerate(zip(base, t)) if a != b), min(len(base), len(t)))
+                what = "trace differs at step %d" % where
+                if where < len(base) - 1 and where < len(t) - 1:
+                    da = json.loads(base[where]); db = json.loads(t[where])
+                    what += ": " + ", ".join("%s %r vs %r" % (kk, da[kk], db[kk]) for kk in da if da[kk] != db.get(kk))[:500]
+                c = dict(meta); c["orders"] = o; c["base_orders"] = base_orders
+                findings.append(Finding("monitor", "live/%s/reconfig-order" % spec["solver"],
+                                        "live solver re-configured between two Steps by the calls %r instead of %r (same settings): %s"
+                                        % (o, base_orders, what), c))
+                break
+        if len(samples) < 1 and all(live):
+            samples.append({"stream": "live", "spec": spec, "plan": plan, "orders_checked": len(trials) + 1})
+    return evals, nontrivial
+
+
+# =====================================================================================================
 # stream `map`: DE2 under different maps -> identical trajectories; model replay with the real evaluation order
 # =====================================================================================================
 SNAP_KEYS = ("ret", "population", "popEnergy", "bestSolution", "bestEnergy", "evaluations", "generations", "stepmon_x",
              "stepmon_y", "maxiter", "maxfun", "live", "n_stepmon", "n_cb", "n_con", "n_trials")
 
 
+DIRTY_KINDS = ("abs", "sort", "clamp")
+
+
+def dirty_apply(kind, x):
+    """what a "tidying" user function does to the vector it is handed, IN PLACE (list or ndarray);
+    mirrored by Drv/C07.lean `dirtyOf`"""
+    if kind == "abs":                 # fold onto the non-negative orthant
+        for i in range(len(x)):
+            x[i] = abs(x[i])
+    elif kind == "sort":              # symmetric objective: canonical order
+        x[:] = sorted(x)
+    elif kind == "clamp":             # keep the model inside its domain of validity
+        for i in range(len(x)):
+            if x[i] < -1.0:
+                x[i] = -1.0
+            elif x[i] > 1.0:
+                x[i] = 1.0
+
+
+class DirtyProblem(trace.Problem):
+    """user functions that modify their argument in place before evaluating (spec['dirty'] = {'cost': kind|None,
+    'pen': kind|None}).  The recorder keeps the vector as it was AT THE CALL and the value returned."""
+
+    def cost(self, x):
+        # same as trace.Problem.cost, except that the vector is modified in place first and the record keeps the
+        # vector as it was at the call (one append per call: the thread-pool map calls this concurrently)
+        x0 = vec(x)
+        dirty_apply((self.spec.get("dirty") or {}).get("cost"), x)
+        xv = vec(x)
+        kind, e = self.cost_expr
+        if kind == "scalar":
+            y = dsl.ev(e, xv)
+        else:
+            y = np.array([dsl.ev(t, xv) for t in e])
+        s = self.solver
+        box = None
+        if s is not None and s._useStrictRange:
+            box = (vec(s._strictMin), vec(s._strictMax))
+        self.rec.cost_calls.append((x0, y if kind == "scalar" else [float(t) for t in y]))
+        self.rec.box_at_call.append(box)
+        return y
+
+    def penalty_fn(self, expr):
+        kind = (self.spec.get("dirty") or {}).get("pen")
+
+        def penalty(x):
+            x0 = vec(x)
+            dirty_apply(kind, x)
+            p = dsl.ev(expr, vec(x))
+            self.rec.pen_calls.append((x0, p))
+            return p
+        return penalty
+
+
 def run_de2(spec, seed, mapper):
     """returns (list of reduced snapshots, recorder).  mapper None = the built-in python_map"""
     rec = trace.Recorder()
-    prob = trace.Problem(spec, rec)
+    prob = DirtyProblem(spec, rec) if spec.get("dirty") else trace.Problem(spec, rec)
     _random.seed(seed); np.random.seed(seed % (2 ** 31))
     s = trace.build_solver(spec, prob)
     s.strategy = spec.get("strategy", "Best1Bin")
@@ -831,8 +1144,9 @@ def run_de2(spec, seed, mapper):
     return out, rec, rng_after
 
 
-def de2map_request(spec, rec, orders):
-    """`C07 de2map` request from a recorded run whose map logged its evaluation orders (one per map call)"""
+def de2map_request(spec, rec, orders, shared=True):
+    """`C07 de2map` request from a recorded run whose map logged its evaluation orders (one per map call);
+    shared: did the workers receive the trial vectors themselves (in-process map) or copies"""
     if not solvermodel.modelable(spec):
         return None
     snaps = [sn for sn in rec.snaps if sn["n_cb"] > sn["pre"]["n_cb"] or sn["n_cost_calls"] > sn["pre"]["n_cost_calls"]]
@@ -845,9 +1159,11 @@ def de2map_request(spec, rec, orders):
     groups = [gens[g] for g in sorted(gens)]
     if len(groups) != len(snaps) - 1 or any(len(g) != npop for g in groups):
         return None
-    line = "C07 de2map %s (pop %s) (trials (%s)) (orders (%s))" % (
+    d = spec.get("dirty") or {}
+    line = "C07 de2map %s (pop %s) (trials (%s)) (orders (%s)) (dirty (%s %s)) (shared (%s))" % (
         solvermodel.setup_sexp(spec), fll(rec.init_population), " ".join(fll(g) for g in groups),
-        " ".join(common.nl(o) for o in orders))
+        " ".join(common.nl(o) for o in orders), d.get("cost") or "none", d.get("pen") or "none",
+        " ".join("true" if shared else "false" for _ in orders))
     return line, snaps
 
 
@@ -880,6 +1196,12 @@ def compare_de2map(reply, snaps, rec):
     return None
 
 
+def _dirty_changes(dirty, x):
+    y = list(x)
+    dirty_apply(dirty.get("cost") or dirty.get("pen"), y)
+    return y != list(x)
+
+
 def map_stream(seed, shard, ncases, tier, hist, findings, samples, ks=None):
     evals = 0; nontrivial = 0
     lines = []; pending = []
@@ -892,6 +1214,13 @@ def map_stream(seed, shard, ncases, tier, hist, findings, samples, ks=None):
             if spec.get("limits") is None or spec["limits"][0] is None:
                 spec["limits"] = (rng.choice([4, 8, 15]), (spec.get("limits") or (None, None))[1])
         sd = rng.randrange(2 ** 31)
+        if rng.random() < 0.6:
+            # user functions that tidy up their argument IN PLACE: whether the write reaches the solver's own trial
+            # vector must not depend on the map (in-process maps hand over the object, process maps a copy)
+            dk = {"cost": rng.choice(DIRTY_KINDS) if rng.random() < 0.8 else None}
+            dk["pen"] = rng.choice(DIRTY_KINDS) if (spec.get("penalty") is not None and (dk["cost"] is None or rng.random() < 0.3)) else None
+            if dk["cost"] or dk["pen"]:
+                spec["dirty"] = dk
         meta = {"stream": "map", "seed": seed, "shard": shard, "k": k, "tier": tier, "spec": spec, "rng_seed": sd}
         try:
             base, brec, brng = run_de2(spec, sd, None)
@@ -903,15 +1232,23 @@ def map_stream(seed, shard, ncases, tier, hist, findings, samples, ks=None):
             continue
         evals += 1
         hist["map:DE2:%s" % spec["flavour"]] = hist.get("map:DE2:%s" % spec["flavour"], 0) + 1
+        dirty = spec.get("dirty")
+        if dirty:
+            dtag = "map-dirty:cost=%s:pen=%s" % (dirty.get("cost"), dirty.get("pen"))
+            hist[dtag] = hist.get(dtag, 0) + 1
+            # did an in-place write really change an evaluated vector?
+            if any(_dirty_changes(dirty, x) for x, _ in brec.cost_calls):
+                hist["map-dirty:argument-really-modified"] = hist.get("map-dirty:argument-really-modified", 0) + 1
         ngen = base[-1]["n_stepmon"] if base else 0
         if ngen >= 3:
             nontrivial += 1
         # an objective that is infinite at an evaluated point is counted differently without an evaluation monitor
         inf_eval = any((not isinstance(y, list)) and math.isinf(y) for _, y in brec.cost_calls)
-        olog = {"serial": OrderLog(), "reversed": OrderLog(), "shuffled": OrderLog()}
+        olog = {"serial": OrderLog(), "reversed": OrderLog(), "shuffled": OrderLog(), "deepcopy": OrderLog()}
         variants = [("serial", serial_map(olog["serial"])), ("reversed", reversed_map(olog["reversed"])),
-                    ("shuffled", shuffled_map(sd ^ 0x5bd1, olog["shuffled"])), ("threads", thread_map(3))]
-        if k % 3 == 0:
+                    ("shuffled", shuffled_map(sd ^ 0x5bd1, olog["shuffled"])), ("threads", thread_map(3)),
+                    ("deepcopy", deepcopy_map(olog["deepcopy"]))]
+        if k % 3 == 0 or (dirty and k % 2 == 0):
             variants.append(("processes", fork_map(3)))
         serial_ref = None
         for name, mp in variants:
@@ -947,7 +1284,7 @@ def map_stream(seed, shard, ncases, tier, hist, findings, samples, ks=None):
                 c = dict(meta); c["map"] = name
                 findings.append(Finding("monitor", "map/DE2/%s/evalmon" % name, "evaluation monitor length differs between two non-default maps", c))
             if name in olog:
-                rq = de2map_request(spec, rec, olog[name].calls)
+                rq = de2map_request(spec, rec, olog[name].calls, shared=(name != "deepcopy"))
                 if rq is not None:
                     lines.append(rq[0]); pending.append((name, rq[1], rec, meta))
                     if name != "serial" and any(o != sorted(o) for o in olog[name].calls):
@@ -1069,8 +1406,8 @@ def ens_stream(seed, shard, ncases, tier, hist, findings, samples, ks=None):
 # =====================================================================================================
 # shard / main / replay
 # =====================================================================================================
-BUDGET = {"quick": {"cfg": 90, "perm": 8, "map": 12, "ens": 4},
-          "thorough": {"cfg": 500, "perm": 6, "map": 70, "ens": 28}}
+BUDGET = {"quick": {"cfg": 90, "perm": 8, "live": 4, "map": 12, "ens": 4},
+          "thorough": {"cfg": 500, "perm": 6, "live": 40, "map": 70, "ens": 28}}
 
 
 def run_shard(pid, seed, shard, ncases, tier, extra):
@@ -1078,12 +1415,18 @@ def run_shard(pid, seed, shard, ncases, tier, extra):
     findings = []; hist = {}; samples = []
     b = BUDGET[tier]
     scale = (extra or {}).get("scale", 1.0)
-    n1, nt1, l1 = cfg_stream(seed, shard, int(b["cfg"] * scale), tier, hist, findings, samples)
-    n2, nt2 = perm_stream(seed, shard, max(1, int(b["perm"] * scale)), tier, hist, findings, samples)
-    n3, nt3, l3 = map_stream(seed, shard, max(1, int(b["map"] * scale)), tier, hist, findings, samples)
-    n4, nt4 = ens_stream(seed, shard, max(1, int(b["ens"] * scale)), tier, hist, findings, samples)
-    hist["cases:cfg"] = n1; hist["cases:perm"] = n2; hist["cases:map"] = n3; hist["cases:ens"] = n4
-    return {"evaluations": n1 + n2 + n3 + n4, "nontrivial": nt1 + nt2 + nt3 + nt4, "model_lines": l1 + l3,
+    def timed(name, fn, n):
+        t0 = time.process_time()
+        r = fn(seed, shard, n, tier, hist, findings, samples)
+        hist["cpu-ms:" + name] = hist.get("cpu-ms:" + name, 0) + int(1000 * (time.process_time() - t0))
+        return r
+    n1, nt1, l1 = timed("cfg", cfg_stream, int(b["cfg"] * scale))
+    n2, nt2 = timed("perm", perm_stream, max(1, int(b["perm"] * scale)))
+    n5, nt5 = timed("live", live_stream, max(1, int(b["live"] * scale)))
+    n3, nt3, l3 = timed("map", map_stream, max(1, int(b["map"] * scale)))
+    n4, nt4 = timed("ens", ens_stream, max(1, int(b["ens"] * scale)))
+    hist["cases:cfg"] = n1; hist["cases:perm"] = n2; hist["cases:map"] = n3; hist["cases:ens"] = n4; hist["cases:live"] = n5
+    return {"evaluations": n1 + n2 + n3 + n4 + n5, "nontrivial": nt1 + nt2 + nt3 + nt4 + nt5, "model_lines": l1 + l3,
             "findings": findings, "samples": samples, "hist": hist}
 
 
@@ -1096,32 +1439,46 @@ def main(tier, seed):
     def search_more():
         r = framework.run_shards("c07", "run_shard", PID, seed + 15485863, 16, 0, tier, extra={"scale": 1.5 if tier == "quick" else 0.3})
         return r["findings"]
-    rule = ("four streams on the real solvers. cfg: random sequences of 2-7 Set* calls (all 14 setters, dependent / repeated / "
-            "raising ones included; boxes with min>max, wrong lengths, clip with tight=False; monitors new / reused / Null / None) on "
-            "fresh and already-run DE, DE2, Nelder-Mead, Powell, Lattice, Buckshot solvers: every attribute, the population, the position "
-            "in the random stream and the raised flags compared with Model/Config.lean; adjacent calls the footprint table declares "
-            "independent are swapped and pairwise independent sequences permuted on the real solver (non-trivial = a swap or permutation "
-            "was executed and at least one call did not raise). perm: complete solver specs (6-9 configuration calls incl. the "
-            "initial-points call) under 24 sampled orders (quick) / all 720 orders of the six base calls (thorough, every second case) "
-            "and all 24 orders of a 4-call re-configuration in mid-run: full traces compared bit for bit (non-trivial = >= 3 cost "
-            "calls). map: DE2 under python_map / serial / reversed / shuffled / ThreadPool / forked-process maps: per-op population, "
-            "energies, best, counters, step monitor, stop message and final random state compared; the Lean step2With replayed with the "
-            "evaluation order the map really used: states and evaluation log entry by entry (non-trivial = >= 3 generations). ens: "
-            "Lattice/Buckshot x NelderMead/Powell members: Solve vs Solve(step=True) vs Step loop, under reversed / shuffled / thread / "
-            "forked-process(dill) maps: best, counters, every member's result and history (non-trivial = >= 2 members, > 3 evaluations each).")
+    rule = ("five streams on the real solvers. cfg: random sequences of 2-8 Set* calls (all 14 setters, dependent / repeated / "
+            "raising ones included; boxes with min>max, wrong lengths, clip with tight=False; monitors new / reused / Null / None) "
+            "interleaved with `boot` = the prelude of Step (`_bootstrap_objective`: the deferred decoration, which under strict "
+            "ranges clips the population and draws random numbers) on fresh and already-run LIVE DE, DE2, Nelder-Mead, Powell, "
+            "Lattice, Buckshot solvers: every attribute, the population, the position in the random stream, the number of "
+            "decorations performed and the raised flags compared with Model/Config.lean; adjacent calls the footprint table "
+            "declares independent (in the state they are made in) are swapped and pairwise independent sequences permuted on the "
+            "real solver - also when the tie to the model is broken (non-trivial = a swap or permutation was executed and at least "
+            "one call did not raise). perm: complete solver specs (6-9 configuration calls incl. the initial-points call) under 24 "
+            "sampled orders (quick) / all 720 orders of the six base calls (thorough, every second case) and all 24 orders of a "
+            "4-call re-configuration in mid-run: full traces compared bit for bit (non-trivial = >= 3 cost calls). live: DE / DE2 / "
+            "NM / Powell driven by Step with a never-true termination (the solver is LIVE), re-configured between two Steps by 3-6 "
+            "calls out of SetStrictRanges (new box / off; strict ranges often off before) / SetPenalty / SetConstraints / "
+            "SetEvaluationLimits / SetTermination / SetEvaluationMonitor / SetReducer / SetGenerationMonitor, one or two such "
+            "blocks, all (<= 24) or 10-24 sampled orders of each block: the continued traces compared bit for bit (non-trivial = "
+            "live at every block and >= 3 cost calls). map: DE2 under python_map / serial / reversed / shuffled / ThreadPool / "
+            "deep-copying / forked-process maps, 60% of the cases with a cost or penalty that MODIFIES ITS ARGUMENT IN PLACE "
+            "(abs-fold, sort, clamp): per-op population, energies, best, counters, step monitor, stop message and final random "
+            "state compared; the Lean step2Proc (procedures on mutable work items, sharing discipline of the map) replayed with "
+            "the evaluation order the map really used: states and evaluation log entry by entry (non-trivial = >= 3 generations). "
+            "ens: Lattice/Buckshot x NelderMead/Powell members: Solve vs Solve(step=True) vs Step loop, under reversed / shuffled / "
+            "thread / forked-process(dill) maps: best, counters, every member's result and history (non-trivial = >= 2 members, > 3 "
+            "evaluations each).")
     tb = ["Lean 4.33 kernel; axioms per theorem under coverage.theorems (subset of propext, Classical.choice, Quot.sound)",
-          "hand-written models Model/Config.lean (Set* footprints) and Model/Schedule.lean (evaluation order, schedules) tied to /repo by "
-          "the differential runs counted under histogram cfg:* and map-model:*; Model/Solver.lean by C01-C05",
+          "hand-written models Model/Config.lean (Set* footprints, deferred decoration) and Model/Schedule.lean (evaluation order, "
+          "mutable work items, schedules) tied to /repo by the differential runs counted under histogram cfg:*, cfg-boot:* and "
+          "map-model:*; Model/Solver.lean by C01-C05",
           "an evaluation of the cost is atomic in the model: interleavings INSIDE one evaluation (threads) and pickling through a process "
           "map are runtime and covered by the monitor streams only (sampled, not enumerated)",
           "monitors / callables are identified by object identity through a harness registry; `_strictbounds` is observed by its "
-          "action on one exterior point (identity / clips / random)"]
-    assumptions = ["cost, penalty and constraints are deterministic functions that do not touch the global random source",
+          "action on one exterior point (identity / clips / random); a decoration is observed as a new wrapped objective in `_cost[0]`",
+          "the deferred decoration is modelled for AbstractSolver / DE / DE2 / Powell; NelderMead's own `_decorate_objective` (simplex "
+          "rebuilt) is covered by the perm / live monitors only"]
+    assumptions = ["cost, penalty and constraints are deterministic functions of the CONTENTS of the vector they receive that do not touch the "
+                   "global random source (they may modify that vector in place)",
                    "the supplied map returns results in input order (all maps of the check do)",
                    "ensemble members draw no random numbers while running (Nelder-Mead, Powell)",
                    "no evaluated point has an infinite objective (DE2 counts evaluations as non-inf results when it has no evaluation monitor)"]
     extra_cov = {"exhaustive": tier == "thorough",
-                 "exhaustive_note": "thorough: all 720 orders of the six base configuration calls for every second perm case; both tiers: all 24 orders of the mid-run re-configuration"}
+                 "exhaustive_note": "thorough: all 720 orders of the six base configuration calls for every second perm case; both tiers: all 24 orders of the mid-run re-configuration, all orders of every live-solver re-configuration block of <= 4 calls"}
     return framework.finish(PID, tier, seed, t0, proof, run, rule, tb, assumptions, extra_cov=extra_cov, search_more=search_more)
 
 
@@ -1137,7 +1494,7 @@ def replay(path):
         return 2
     leandrv.ensure_driver()
     hist = {}; findings = []; samples = []
-    fn = {"cfg": cfg_stream, "perm": perm_stream, "map": map_stream, "ens": ens_stream}[case["stream"]]
+    fn = {"cfg": cfg_stream, "perm": perm_stream, "live": live_stream, "map": map_stream, "ens": ens_stream}[case["stream"]]
     fn(int(case["seed"]), int(case["shard"]), 0, case["tier"], hist, findings, samples, ks=[int(case["k"])])
     for f in findings:
         print("%s: [%s] %s" % (f["kind"], f["class_key"], f["what"][:800]))
